@@ -175,3 +175,35 @@ func TestC16_Random(t *testing.T) {
 		judgeH(rt, "c16.string", c16Check, c, gen.Lang().Draw(rt, "history-around"))
 	})
 }
+
+// c16.cold-concurrent: the very first String() calls of a freshly started process, made by
+// several goroutines at once (a name table that is unpacked lazily shows here).
+var c16ColdConcCheck = register("C16", "c16.cold-concurrent", coldConcCheck("C16"))
+
+func TestC16_ColdConcurrent(t *testing.T) {
+	cov.Rule(c16Rule + " || and in freshly started processes whose 10..16 goroutines call String() at once as their very first calls (all ten supported values, and unsupported neighbours)")
+	for round := 0; round < pick(12, 120); round++ {
+		if !mine(round) {
+			continue
+		}
+		ng := 10 + round%7
+		gs := make([][]op, ng)
+		for g := range gs {
+			for k := 0; k < 3; k++ {
+				v := int64((g + k*3 + round) % 10)
+				if g >= 10 && k == 1 {
+					v = []int64{-1, 10, 11, -2, 255, 1 << 32}[(g+round)%6]
+				}
+				gs[g] = append(gs[g], op{Kind: "string", Lang: v})
+			}
+		}
+		c := &concCallCase{Plan: plan{GOMAXPROCS: []int{0, 2, 4, 16, 3}[round%5], Phases: []phase{{Goroutines: gs}}}}
+		cov.Eval(ng * 3)
+		cov.Class("cold-concurrent-first-use")
+		cov.NonTrivial("c16.cold-concurrent", []byte{byte(round)})
+		if round == 0 {
+			cov.Sample("c16.cold-concurrent", c)
+		}
+		judge(t, "c16.cold-concurrent", c16ColdConcCheck, c)
+	}
+}
